@@ -3,6 +3,7 @@
 package objecttree
 
 import (
+	"github.com/anyproto/any-sync/commonspace/object/acl/list"
 	"github.com/anyproto/any-sync/commonspace/object/tree/treechangeproto"
 	"github.com/anyproto/any-sync/util/crypto"
 )
@@ -49,4 +50,37 @@ func VerifUseTestStorageChangeBuilder() {
 	StorageChangeBuilder = func(keys crypto.KeyStorage, rootChange *treechangeproto.RawTreeChangeWithId) ChangeBuilder {
 		return &nonVerifiableChangeBuilder{ChangeBuilder: NewChangeBuilder(newMockKeyStorage(), rootChange)}
 	}
+}
+
+// verifRejectingValidator refuses every batch of new changes that contains a change whose id reject() names; it
+// validates nothing else (the ordering checks run without signatures).
+type verifRejectingValidator struct {
+	noOpTreeValidator
+	reject func(id string) bool
+}
+
+func (v *verifRejectingValidator) ValidateNewChanges(tree *Tree, aclList list.AclList, newChanges []*Change) error {
+	for _, c := range newChanges {
+		if v.reject(c.Id) {
+			return ErrHasInvalidChanges
+		}
+	}
+	return nil
+}
+
+// VerifBuildTestableTreeRejecting is BuildTestableTree with a validator that refuses the batches reject() selects.
+func VerifBuildTestableTreeRejecting(storage Storage, aclList list.AclList, reject func(id string) bool) (ObjectTree, error) {
+	root, _ := storage.Root(ctxBackground())
+	changeBuilder := &nonVerifiableChangeBuilder{
+		ChangeBuilder: NewChangeBuilder(newMockKeyStorage(), root.RawTreeChangeWithId()),
+	}
+	deps := objectTreeDeps{
+		changeBuilder: changeBuilder,
+		treeBuilder:   newTreeBuilder(storage, changeBuilder),
+		storage:       storage,
+		validator:     &verifRejectingValidator{reject: reject},
+		aclList:       aclList,
+		flusher:       &defaultFlusher{},
+	}
+	return buildObjectTree(deps)
 }
